@@ -19,7 +19,7 @@ META = {
                   "properties compared as instants; the filesystem search optimiser for every set of 2 (quick) / 3 (thorough) type/id filters "
                   "(=, !=, in) both for soundness (no matching object is skipped) and exactness (FileSystemSource.query on an in-memory file "
                   "system = MemorySource.query = naive evaluation); the three filter routes through a composite of two memory sources.",
-    "level_text_more": 'Also: every triple of allow filters (=, in, in []) on type or id, as query argument and split over the three routes into a FileSystemSource; contains on strings, dictionary keys/values, lists and dotted paths in 4 forms. Timestamp-text filters decided by pysym for 6 operators over symbolic texts; all_versions/get under attached filters incl. a filter that separates the versions of an id; query argument as list, FilterSet, single filter.',
+    "level_text_more": 'Also: every triple of allow filters (=, in, in []) on type or id, as query argument and split over the three routes into a FileSystemSource; contains on strings, dictionary keys/values, lists and dotted paths in 4 forms. Timestamp-text filters decided by pysym for 6 operators over symbolic texts; all_versions/get under attached filters incl. a filter that separates the versions of an id; query argument as list, FilterSet, single filter. Rounds 5-6: two symbolic filters naming the same property (scalar, list, dotted path); FilterSet under add / remove / detach-all histories; the interleaved store histories of C11; get() under filters is the newest passing version.',
     "level_note": "Operator semantics for 'contains' on list-valued properties is not asserted (undocumented). File system is the in-memory stub. "
                   "Optimiser/route obligations are selector-enumerated over small tables (3 types x 4 ids, 4 filters x 4 placements).",
     "technique": "CrossHair symbolic execution of the real filter/optimiser functions (z3), AST-to-SMT interpretation (pysym) of timestamp-text comparison, "
